@@ -230,6 +230,156 @@ fn oracle_suite<S: ShortGroupSignatureScheme>(em: &mut Emitter, rng: &mut Rng, s
     }
 }
 
+/// keys near and at the largest capacity the library hands out (and around block sizes 32 / 64): sign, verify, every
+/// single message changed, exchanges with the last positions, and a proof of knowledge over a random partition with the
+/// first / last revealed and hidden positions changed
+fn wide_suite<S: ShortGroupSignatureScheme>(em: &mut Emitter, rng: &mut Rng, suite: &str) {
+    let ns: Vec<usize> = if em.thorough() { vec![31, 32, 33, 63, 64, 65, 100, 126, 127, 128] } else { vec![33, 65, 127, 128] };
+    for n in ns {
+        let keys = call(|| S::new_keys(NonZeroUsize::new(n).unwrap(), rng.chacha()));
+        let (pk, sk) = match keys {
+            Out::Ok(k) => k,
+            o => {
+                em.count(&format!("{}:wide-keys-{}:{}", suite, n, o.class()));
+                continue;
+            }
+        };
+        let msgs = msg_vector(rng, n);
+        em.oracle_case(&format!("{} wide n={}", suite, n));
+        em.count(&format!("{}:wide", suite));
+        let replay = json!({"suite": suite, "n": n, "msgs": sl(&msgs)});
+        let sig = match call(|| S::sign(&sk, &msgs)) {
+            Out::Ok(s) => s,
+            o => {
+                em.violation("sign-failed", format!("{}: sign {} for a vector filling the capacity {}", suite, o.class(), n), replay.clone());
+                continue;
+            }
+        };
+        if sig.verify(&pk, &msgs).is_err() {
+            em.violation("signature-rejected", format!("{}: fresh signature does not verify (n={})", suite, n), replay.clone());
+            continue;
+        }
+        for i in 0..n {
+            let mut m2 = msgs.clone();
+            m2[i] += Scalar::ONE;
+            if sig.verify(&pk, &m2).is_ok() {
+                em.violation("signature-verifies-with-changed-message", format!("{}: signature over {} messages verifies with message {} changed", suite, n, i), replay.clone());
+                break;
+            }
+        }
+        for (i, j) in [(0usize, n - 1), (n - 2, n - 1), (n / 2, n - 1), (0, 1)] {
+            if i == j || msgs[i] == msgs[j] {
+                continue;
+            }
+            let mut m2 = msgs.clone();
+            m2.swap(i, j);
+            if sig.verify(&pk, &m2).is_ok() {
+                em.violation("signature-verifies-with-messages-exchanged", format!("{}: signature over {} messages verifies with messages {} and {} exchanged", suite, n, i, j), replay.clone());
+            }
+        }
+        // proof of knowledge: every fourth position revealed, plus the last one in one of two runs
+        for run in 0..2 {
+            let revealed = |i: usize| i % 4 == 1 || (run == 1 && i == n - 1);
+            let pm: Vec<ProofMessage<Scalar>> = (0..n).map(|i| if revealed(i) { ProofMessage::Revealed(msgs[i]) } else { ProofMessage::Hidden(HiddenMessage::ProofSpecificBlinding(msgs[i])) }).collect();
+            let rvl: Vec<(usize, Scalar)> = (0..n).filter(|i| revealed(*i)).map(|i| (i, msgs[i])).collect();
+            let pok = match call(|| S::commit_signature_pok(sig.clone(), &pk, &pm, rng.chacha())) {
+                Out::Ok(p) => p,
+                o => {
+                    em.violation("pok-commit-failed", format!("{}: commit_signature_pok {} (n={})", suite, o.class(), n), replay.clone());
+                    continue;
+                }
+            };
+            let nonce = rng.scalar();
+            let c = pok_challenge::<S>(&pok, nonce);
+            let proof = match pok.generate_proof(c) {
+                Ok(p) => p,
+                Err(_) => continue,
+            };
+            em.oracle_case(&format!("{} wide pok n={} run={}", suite, n, run));
+            if !S::verify_signature_pok(&rvl, &pk, &proof, nonce, c) {
+                em.violation("pok-rejected", format!("{}: honest proof of knowledge over {} messages rejected", suite, n), replay.clone());
+                continue;
+            }
+            for k in [0usize, rvl.len() / 2, rvl.len() - 1] {
+                let mut r2 = rvl.clone();
+                r2[k].1 += Scalar::ONE;
+                if matches!(call_total(|| S::verify_signature_pok(&r2, &pk, &proof, nonce, c)), Out::Ok(true)) {
+                    em.violation("pok-accepts:revealed-message-changed", format!("{}: proof over {} messages accepted with revealed message {} changed", suite, n, r2[k].0), replay.clone());
+                }
+            }
+            // a hidden position claimed as revealed with its true value / with zero must not verify (the proof hides it)
+            for i in [0usize, n - 1, n - 2] {
+                if !revealed(i) {
+                    for v in [msgs[i], Scalar::ZERO] {
+                        let mut r3 = rvl.clone();
+                        r3.push((i, v));
+                        r3.sort_by_key(|(i, _)| *i);
+                        if matches!(call_total(|| S::verify_signature_pok(&r3, &pk, &proof, nonce, c)), Out::Ok(true)) {
+                            em.violation("pok-accepts:hidden-message-additionally-revealed", format!("{}: proof over {} messages accepted with hidden message {} listed as revealed", suite, n, i), replay.clone());
+                        }
+                    }
+                }
+            }
+        }
+    }
+}
+
+/// public keys with one generator replaced by the point at infinity (the message at that position is then unbound):
+/// such a key must be refused wherever it is used — no signature and no proof verifies under it for a vector that
+/// differs from the signed one at that position
+fn degenerate_keys<S: ShortGroupSignatureScheme>(em: &mut Emitter, rng: &mut Rng, suite: &str) {
+    for n in [2usize, 3, 5] {
+        let (pk, sk) = S::new_keys(NonZeroUsize::new(n).unwrap(), rng.chacha()).unwrap();
+        let kv = serde_json::to_value(&pk).unwrap_or_default();
+        for field in ["y", "y_blinds"] {
+            let len = kv[field].as_array().map(|a| a.len()).unwrap_or(0);
+            for i in 0..len.min(n) {
+                let mut v2 = kv.clone();
+                let old = v2[field][i].as_str().unwrap_or("").to_string();
+                let ident = match old.len() {
+                    96 => g1_hex_c(&G1Projective::IDENTITY),
+                    192 => g2_hex_c(&G2Projective::IDENTITY),
+                    _ => continue,
+                };
+                v2[field][i] = json!(ident);
+                let bad: S::PublicKey = match serde_json::from_str(&v2.to_string()) {
+                    Ok(k) => k,
+                    Err(_) => {
+                        em.count(&format!("{}:degenerate-key-undecodable", suite));
+                        continue;
+                    }
+                };
+                // the signed vector has zero at the unbound position, so that everything else about the signature fits the key
+                let mut msgs = msg_vector(rng, n);
+                msgs[i] = Scalar::ZERO;
+                let sig = match S::sign(&sk, &msgs) {
+                    Ok(s) => s,
+                    Err(_) => continue,
+                };
+                let mut other = msgs.clone();
+                other[i] = rng.scalar();
+                em.oracle_case(&format!("{} degenerate key {}[{}] n={}", suite, field, i, n));
+                em.count(&format!("{}:degenerate-key", suite));
+                let replay = json!({"suite": suite, "n": n, "field": field, "index": i, "pk": v2});
+                if matches!(call_total(|| sig.verify(&bad, &other).is_ok()), Out::Ok(true)) {
+                    em.violation("signature-verifies-under-degenerate-key", format!("{}: under a key whose generator {}[{}] is the point at infinity a signature verifies for a message that was never signed", suite, field, i), replay.clone());
+                }
+                // proof of knowledge made under the degenerate key, position i revealed with another value
+                let pm: Vec<ProofMessage<Scalar>> = (0..n).map(|j| if j == i { ProofMessage::Revealed(other[j]) } else { ProofMessage::Hidden(HiddenMessage::ProofSpecificBlinding(msgs[j])) }).collect();
+                if let Out::Ok(pok) = call(|| S::commit_signature_pok(sig.clone(), &bad, &pm, rng.chacha())) {
+                    let nonce = rng.scalar();
+                    let c = pok_challenge::<S>(&pok, nonce);
+                    if let Ok(proof) = pok.generate_proof(c) {
+                        if matches!(call_total(|| S::verify_signature_pok(&[(i, other[i])], &bad, &proof, nonce, c)), Out::Ok(true)) {
+                            em.violation("pok-accepts:degenerate-key", format!("{}: under a key whose generator {}[{}] is the point at infinity a proof is accepted with a revealed message that was never signed", suite, field, i), replay.clone());
+                        }
+                    }
+                }
+            }
+        }
+    }
+}
+
 /// model level, BBS: key, signature and proof made by hand (all discrete logs known)
 fn model_bbs(em: &mut Emitter, rng: &mut Rng) {
     for case in 0..em.n(60, 1200) {
@@ -528,11 +678,16 @@ fn model_ps(em: &mut Emitter, rng: &mut Rng) {
 pub fn gen_c17(em: &mut Emitter, rng: &mut Rng) {
     em.rule = "oracle: library keys of capacity 1..N, sign / verify / verify under other key / each message changed / each signature \
                component replaced; real prover for all 2^n partitions (n ≤ 4) with proof-specific and external blinding, verified with true, \
-               changed, dropped, split, extra, out-of-range revealed entries, other key, nonce, challenge. model: hand-made keys, signatures and \
+               changed, dropped, split, extra, out-of-range revealed entries, other key, nonce, challenge; capacities 33 / 65 / 127 / 128 (thorough: ten widths up to the \
+               largest the library keys): sign, verify, every message changed, exchanges with the last positions, proof of knowledge; keys with one generator at infinity (signed vector zero there): nothing verifies for another value at that position. model: hand-made keys, signatures and \
                proofs with known discrete logs (honest, over-long incl. forged commitments and signature-less PS forgery, short, identity \
                elements, index edge cases, other key) — real verify verdict, hashed PS commitment and index→response lookup vs the Lean model".into();
     oracle_suite::<bbs::BbsScheme>(em, rng, "bbs");
     oracle_suite::<ps::PsScheme>(em, rng, "ps");
+    degenerate_keys::<bbs::BbsScheme>(em, &mut rng.sub(1719), "bbs");
+    degenerate_keys::<ps::PsScheme>(em, &mut rng.sub(1720), "ps");
+    wide_suite::<bbs::BbsScheme>(em, &mut rng.sub(1717), "bbs");
+    wide_suite::<ps::PsScheme>(em, &mut rng.sub(1718), "ps");
     model_bbs(em, rng);
     model_ps(em, rng);
 }
